@@ -35,7 +35,7 @@ CONFIG.update(
                 "convex and conserves coordinate sums (ordered field); components as functions of witnesses: rate-gated mutations "
                 "keep the dimension and are the identity at rate 0, the five permutation mutations return permutations for every "
                 "legal witness, the recombination frame's offspring counts, DEMutation's format, DE crossovers position-wise, the "
-                "crossover gate (with the pc = 0 / draw 0 counterexample)."
+                "crossover gate u < pc (probability 0 never crosses, probability 1 always does, for every draw; exercised with an all-zero generator)."
                 " Tied to /repo by running the real helpers exhaustively in a small "
                 "scope and the real components on seeded populations, diffing against the compiled model (K) and evaluating the "
                 "property predicate on the implementation's output (O)."),
